@@ -105,7 +105,7 @@ def run(harnesses, repo='/repo', jobs=8, timeout=3600, playback=True):
     # Take our own lock first, so the limit measures Kani's work on this property only.
     import fcntl
     os.makedirs(CACHE, exist_ok=True)
-    lockf = open(os.path.join(CACHE, 'kani.lock'), 'w')
+    lockf = open(os.path.join(CACHE, 'kani-%s.lock' % hashlib.sha1(os.path.abspath(repo).encode()).hexdigest()[:10]), 'w')  # per build directory
     fcntl.flock(lockf, fcntl.LOCK_EX)
     res['waited_for_lock_s'] = round(time.time() - t0, 1)
     try:
